@@ -47,3 +47,21 @@ func (c *MappingsCache) VerifItemCache() (items []VerifItem) {
 }
 
 func VerifElementSizeMem(s string) int64 { return elementSizeMem(s) }
+
+// VerifModifyLocked reports whether a modifier (AddValues/RemoveByTTL/Save) currently holds modifyMu.
+func (c *MappingsCache) VerifModifyLocked() bool {
+	if c.modifyMu.TryLock() {
+		c.modifyMu.Unlock()
+		return false
+	}
+	return true
+}
+
+// VerifMuFree reports whether c.mu is held by nobody at this instant (neither read- nor write-locked).
+func (c *MappingsCache) VerifMuFree() bool {
+	if c.mu.TryLock() {
+		c.mu.Unlock()
+		return true
+	}
+	return false
+}
